@@ -245,6 +245,9 @@ unit("C17", "linear.dark_current")(_dark_unit())
 # the step contract the lemmas below rest on is proved on the real ReadoutProperties.__init__ / calculate_steps
 from . import C02 as _C02
 unit("C17", "steps.contract")(_C02.rp_ctor)
+# ... and the per-step pixel rule of the exposure loop itself (kept in non-destructive mode, cleared in destructive mode — whatever else the
+# Readout object says), proved on the real exposure.run_pipeline for a symbolic number of steps
+unit("C17", "run.pixel_rule")(_C02.run_entry)
 
 
 # ---- lemmas over the contracts --------------------------------------------------------------------------------
